@@ -136,3 +136,6 @@ silent(["C10"], L, "and prev_item.bytecode_offset >= (254 if is_linetable else 2
 silent(["C10"], L, "                    item.line_offset & 255,", "                    item.line_offset % 256,", "same byte")
 fire("C11", C, "    if not freevars and not cellvars:", "    if not freevars:", "NOFREE although there are cell variables")
 fire("C11", C, "    if code_data._nested:", "    if not code_data._nested:", "inverted polarity")
+# ---- multi-site equivalent rewrites: (file, [(old, new), ...])
+M.append(dict(kind="silent", pid=["C13", "C02"], file=B, old="    targets_set = {0}", new="    targets_set = set()",
+              more=[("    targets = sorted(targets_set)", "    targets = sorted({0} | targets_set)")], why="0 added when the list is built"))
